@@ -24,7 +24,7 @@ RULE = ("case = DCOP description + two schedules + algorithm seed; non-trivial =
         "optimum != worst cost; distinct by sha1(case) (DCOP and schedules)")
 ASSUMPTIONS = ["per-channel FIFO is the delivery guarantee of pyDCOP's transports"]
 BUDGET = {"quick": {"workers": 8, "examples": 500, "seconds": 40},
-          "thorough": {"workers": 16, "examples": 2500, "seconds": 600}}
+          "thorough": {"workers": 16, "examples": 12500, "seconds": 600}}
 
 
 @st.composite
